@@ -178,37 +178,66 @@ func sameSeq(a []handler.Message, b []handler.Message) string {
 	return ""
 }
 
+// suspects collects tolerant scripts on which the handler gave up early while the
+// reader saw no stall.  The code under test reads the wall clock between the
+// reader's return and its own decision, where no reader-side timestamp can see a
+// stall; so such a case is only a violation if it gives up again in each of three
+// re-runs executed alone, one after the other, when the batch has finished (a
+// genuine defect - a timer not re-armed, a wrong tolerance - is deterministic; a
+// scheduling stall longer than the tolerance is not).
+var suspects struct {
+	sync.Mutex
+	list []faultCase
+}
+
 // execC13 returns true if the case was decided (false = inconclusive, retry).
 func execC13(c *child.Ctx, k faultCase, cj []byte) bool {
+	decided, _ := execC13X(c, k, cj, false)
+	return decided
+}
+
+// execC13X returns (decided, gaveUpEarly).  In confirming mode an early give-up is
+// reported through the second result only.
+func execC13X(c *child.Ctx, k faultCase, cj []byte, confirming bool) (bool, string) {
+	decided, early := execC13Y(c, k, cj, confirming)
+	return decided, early
+}
+
+func execC13Y(c *child.Ctx, k faultCase, cj []byte, confirming bool) (bool, string) {
 	obs := runFaultScript(k)
 	if !obs.closed {
 		c.Violate("channel-not-closed", "the message channel was not closed", cj)
-		return true
+		return true, ""
 	}
 	if obs.err == nil {
 		c.Violate("no-error-returned", "Handle returned nil although the input ended", cj)
-		return true
+		return true, ""
 	}
 	data := allData(k.Steps)
 	if k.Tolerant {
 		if obs.supplied != len(data) {
 			if obs.stalled {
-				return false // the machine stalled: the handler was entitled to give up
+				return false, "" // the machine stalled: the handler was entitled to give up
 			}
-			c.Violate("gave-up-within-tolerance", fmt.Sprintf("the handler stopped after %d of %d bytes although every interruption was within the tolerance (error %v)", obs.supplied, len(data), obs.err), cj)
-			return true
+			if !confirming {
+				suspects.Lock()
+				suspects.list = append(suspects.list, k)
+				suspects.Unlock()
+				return true, ""
+			}
+			return true, fmt.Sprintf("the handler stopped after %d of %d bytes although every interruption was within the tolerance (error %v)", obs.supplied, len(data), obs.err)
 		}
 		want := runSequential(fixedStart, slog.LevelDebug, data)
 		if why := sameSeq(obs.msgs, want); why != "" {
 			c.Violate("interruption-changed-messages", why+" ("+k.Note+")", cj)
 		}
 		c.Count("tolerant_scripts_checked", 1)
-		return true
+		return true, ""
 	}
 	// stop script
 	if obs.supplied != k.StopAfter {
 		c.Violate("did-not-stop", fmt.Sprintf("the handler consumed %d bytes; the source stopped being readable after %d (%s)", obs.supplied, k.StopAfter, k.Note), cj)
-		return true
+		return true, ""
 	}
 	want := runSequential(fixedStart, slog.LevelDebug, data[:k.StopAfter])
 	if why := sameSeq(obs.msgs, want); why != "" {
@@ -221,7 +250,7 @@ func execC13(c *child.Ctx, k faultCase, cj []byte) bool {
 		}
 	}
 	c.Count("stop_scripts_checked", 1)
-	return true
+	return true, ""
 }
 
 // splitAt turns data into script steps cut at the given byte positions, in chunks
@@ -240,7 +269,7 @@ func chunked(data []byte, chunk int) []step {
 }
 
 func monC13(c *child.Ctx, replay json.RawMessage) {
-	const tolMs = 120
+	const tolMs = 400
 	if replay != nil {
 		var k faultCase
 		json.Unmarshal(replay, &k)
@@ -257,6 +286,11 @@ func monC13(c *child.Ctx, replay json.RawMessage) {
 	var cases []faultCase
 	var nontriv []bool
 	add := func(k faultCase, nt bool) {
+		if k.Tolerant && len(cases)%10 != 0 {
+			// most tolerant scripts end with a hard read error (the handler stops at once)
+			// instead of a silence the handler has to sit out; every tenth keeps the silence
+			k.Steps = append(append([]step(nil), k.Steps...), step{Fault: "other"})
+		}
 		// the other settings of the configuration (shipped configs set them) must not change the behaviour
 		switch len(cases) % 4 {
 		case 1:
@@ -362,7 +396,7 @@ func monC13(c *child.Ctx, replay json.RawMessage) {
 		}
 	}
 	// run the cases concurrently (they sleep, they do not spin)
-	par := 96
+	par := 48
 	sem := make(chan struct{}, par)
 	var wg sync.WaitGroup
 	for i := range cases {
@@ -389,4 +423,27 @@ func monC13(c *child.Ctx, replay json.RawMessage) {
 		}(i)
 	}
 	wg.Wait()
+	// confirm the suspects alone, sequentially
+	suspects.Lock()
+	list := suspects.list
+	suspects.list = nil
+	suspects.Unlock()
+	for _, k := range list {
+		cj, _ := json.Marshal(k)
+		again := 0
+		why := ""
+		for try := 0; try < 3; try++ {
+			decided, early := execC13X(c, k, cj, true)
+			if decided && early != "" {
+				again++
+				why = early
+			}
+		}
+		if again == 3 {
+			c.Violate("gave-up-within-tolerance", why+" - in the batch and again in three solo re-runs ("+k.Note+")", cj)
+		} else {
+			c.Inconclusive(fmt.Sprintf("the handler gave up early once on a tolerant script but only %d of 3 solo re-runs did: %s", again, k.Note))
+		}
+		c.Count("suspect_scripts_rerun_alone", 1)
+	}
 }
